@@ -1045,17 +1045,12 @@ class eigenbasis_of(basis_context_manager):
         
     def __enter__(self):
 
-        # the operator which defines the basis changes when the context is 
-        # entered (not when the context object is created) and the previous
-        # one comes back when the context is left
-        self._op_backup.append(self.manager.current_basis_operator)
-        self.manager.store_current_basis_operator(self.op)
-
-        self.manager._in_eigenbasis_of_context = True
-        
         if self.manager.warn_about_basis_change:
             print("\nQr >>> Entering basis context manager ...")
             
+        # everything that can fail (an operator which cannot be diagonalized)
+        # is done before the bookkeeping is touched: when __enter__ raises, 
+        # no __exit__ follows 
         cb = self.manager.get_current_basis()
         ob = self.op.get_current_basis()
         
@@ -1066,6 +1061,15 @@ class eigenbasis_of(basis_context_manager):
         
         #SS = self.op.diagonalize()
         SS = self.op.get_diagonalization_matrix()
+
+        # the operator which defines the basis changes when the context is 
+        # entered (not when the context object is created) and the previous
+        # one comes back when the context is left
+        self._op_backup.append(self.manager.current_basis_operator)
+        self.manager.store_current_basis_operator(self.op)
+
+        self.manager._in_eigenbasis_of_context = True
+        
         self.manager.set_new_basis(SS)
 
         #self.manager.register_with_basis(nb,self.op)
